@@ -6,18 +6,28 @@ and — from a full pool — the lowest-priority entry.
 import NeoModel.Proofs.MempoolInsert
 namespace NeoModel.Mempool
 
+/-- the fields outside the property's own state: item stamps and data, the resend settings and log,
+the subscription flag and everything sent on the events channel -/
+def SameAux (mp mp' : Pool) : Prop :=
+  mp'.stamp = mp.stamp ∧ mp'.data = mp.data ∧ mp'.resendThreshold = mp.resendThreshold ∧ mp'.resent = mp.resent ∧
+  mp'.subsOn = mp.subsOn ∧ mp'.events = mp.events
+
+theorem SameAux.refl (mp : Pool) : SameAux mp mp := ⟨rfl, rfl, rfl, rfl, rfl, rfl⟩
+
 /-- A failed `Add` may only have filled the balance cache of the new transaction's payer
-(with the balance the `Feer` reports and an empty fee sum). -/
+(with the balance the `Feer` reports and an empty fee sum); every other field is unchanged
+(no event is sent, no item stamp or data changes). -/
 def CacheOnly (mp mp' : Pool) (t : Tx) (feer : Feer) : Prop :=
   mp'.txs = mp.txs ∧ mp'.vmap = mp.vmap ∧ mp'.conflicts = mp.conflicts ∧ mp'.oracleResp = mp.oracleResp ∧
   mp'.capacity = mp.capacity ∧ mp'.feePerByte = mp.feePerByte ∧ mp'.panicked = mp.panicked ∧
   (mp'.fees = mp.fees ∨
     (mp.fees (payerOf t) = none ∧
       mp'.fees = upd mp.fees (payerOf t)
-        (some { balance := feer.balance (payerOf t).1 (payerOf t).2 % U256, feeSum := 0 })))
+        (some { balance := feer.balance (payerOf t).1 (payerOf t).2 % U256, feeSum := 0 }))) ∧
+  SameAux mp mp'
 
 theorem CacheOnly.refl (mp : Pool) (t : Tx) (feer : Feer) : CacheOnly mp mp t feer :=
-  ⟨rfl, rfl, rfl, rfl, rfl, rfl, rfl, Or.inl rfl⟩
+  ⟨rfl, rfl, rfl, rfl, rfl, rfl, rfl, Or.inl rfl, SameAux.refl _⟩
 
 theorem removeAll_length_lt {U : Tx → Prop} (hw : WF U) {mp : Pool} (hi : Inv U mp) (c : Tx) (cs : List Tx)
     (hc : c ∈ mp.txs) : (removeAll mp (c :: cs)).txs.length < mp.txs.length := by
@@ -25,11 +35,33 @@ theorem removeAll_length_lt {U : Tx → Prop} (hw : WF U) {mp : Pool} (hi : Inv 
   rw [h2, ← filter_notin_cons]
   exact Nat.lt_of_le_of_lt (List.length_filter_le _ _) (length_filter_ne_lt mp.txs c hc)
 
+theorem checkBalance_errKind (t : Tx) (b : Fee) (e : Err) (h : (checkBalance t b).2 = some e) :
+    e = .funds ∨ e = .conflict := by
+  unfold checkBalance at h
+  simp only at h
+  split at h
+  · exact Or.inl (Option.some.inj h).symm
+  · split at h
+    · exact Or.inr (Option.some.inj h).symm
+    · cases h
+
+/-- the errors of `checkTxConflicts`: ErrConflictsAttribute, ErrInsufficientFunds, ErrConflict -/
+theorem checkTxConflicts_errKind (mp : Pool) (t : Tx) (feer : Feer) {mp1 : Pool} {e : Err}
+    (h : checkTxConflicts mp t feer = (mp1, .error e)) : e = .cattr ∨ e = .funds ∨ e = .conflict := by
+  unfold checkTxConflicts at h
+  simp only at h
+  repeat' split at h
+  all_goals first
+    | (injection (Prod.mk.inj h).2 with h'; exact Or.inl h'.symm)
+    | (rename_i e' he'; injection (Prod.mk.inj h).2 with h'; subst h'; exact Or.inr (checkBalance_errKind _ _ _ he'))
+    | cases (Prod.mk.inj h).2
+
 /-- Everything `Add` does on a pool that satisfies the invariant. -/
 theorem add_spec {U : Tx → Prop} (hw : WF U) {mp : Pool} (hi : Inv U mp) {t : Tx} (ht : U t) (feer : Feer)
-    (hF : FeerOk feer) :
-    (∀ mp' e, add mp t feer = (mp', some e) → CacheOnly mp mp' t feer ∧ Inv U mp') ∧
-    (∀ mp', add mp t feer = (mp', none) →
+    (hF : FeerOk feer) (d : Nat) :
+    (∀ mp' e, add mp t feer d = (mp', some e) → CacheOnly mp mp' t feer ∧ Inv U mp' ∧
+      (e = .oom → mp.txs.length = mp.capacity ∧ ∀ x ∈ mp.txs, ge x t)) ∧
+    (∀ mp', add mp t feer d = (mp', none) →
       Inv U mp' ∧ mp'.capacity = mp.capacity ∧ mp'.feePerByte = mp.feePerByte ∧ t ∈ mp'.txs ∧
       (∀ x ∈ mp'.txs, x = t ∨ x ∈ mp.txs) ∧
       (∀ x ∈ mp.txs, x ∉ mp'.txs →
@@ -42,7 +74,8 @@ theorem add_spec {U : Tx → Prop} (hw : WF U) {mp : Pool} (hi : Inv U mp) {t : 
     constructor
     · intro mp' e h
       have := (Prod.mk.inj h).1; subst this
-      exact ⟨CacheOnly.refl _ _ _, hi⟩
+      have he : e = .dup := (Option.some.inj (Prod.mk.inj h).2).symm
+      exact ⟨CacheOnly.refl _ _ _, hi, fun h' => by rw [he] at h'; cases h'⟩
     · intro mp' h; cases (Prod.mk.inj h).2
   · rw [if_neg hdup]
     have hfresh0 : ∀ e ∈ mp.txs, e.id ≠ t.id := by
@@ -59,7 +92,10 @@ theorem add_spec {U : Tx → Prop} (hw : WF U) {mp : Pool} (hi : Inv U mp) {t : 
         constructor
         · intro mp' e h
           have := (Prod.mk.inj h).1; subst this
-          exact ⟨CacheOnly.refl _ _ _, hi⟩
+          have he : e = e0 := (Option.some.inj (Prod.mk.inj h).2).symm
+          refine ⟨CacheOnly.refl _ _ _, hi, fun h' => ?_⟩
+          rw [he] at h'
+          rcases checkTxConflicts_errKind _ t feer hck with h'' | h'' | h'' <;> rw [h''] at h' <;> cases h'
         · intro mp' h; cases (Prod.mk.inj h).2
       | ok rm =>
         simp only
@@ -67,7 +103,7 @@ theorem add_spec {U : Tx → Prop} (hw : WF U) {mp : Pool} (hi : Inv U mp) {t : 
         have hi1 : Inv U mp1 := by rw [hmp1]; exact inv_fees_upd hi _ _ hent
         have hco : CacheOnly mp mp1 t feer := by
           rw [hmp1]
-          refine ⟨rfl, rfl, rfl, rfl, rfl, rfl, rfl, ?_⟩
+          refine ⟨rfl, rfl, rfl, rfl, rfl, rfl, rfl, ?_, SameAux.refl _⟩
           rcases hcase with h | ⟨h1, h2⟩
           · exact Or.inl (upd_self_eq _ _ _ h)
           · exact Or.inr ⟨h1, by rw [h2]⟩
@@ -96,7 +132,7 @@ theorem add_spec {U : Tx → Prop} (hw : WF U) {mp : Pool} (hi : Inv U mp) {t : 
               ≤ sumFees (payerOf t) (mp.txs.filter (fun x => !(rm.map (·.id)).contains x.id)) := by
             rw [q2]; apply sumFees_sublist
             rw [← htx1]; exact p4.filter _
-          obtain ⟨s1, s2⟩ := insertStage_spec hw q1 ht feer
+          obtain ⟨s1, s2⟩ := insertStage_spec hw q1 ht feer d
             (fun e he => hfresh0 e (hsub3.subset he))
             (fun e he hc => hnotrm e he (hrm3 e (hsub3.subset he) hc))
             (fun e he hc => hnotrm e he (hrm4 e (hsub3.subset he) hc))
@@ -104,7 +140,7 @@ theorem add_spec {U : Tx → Prop} (hw : WF U) {mp : Pool} (hi : Inv U mp) {t : 
             fe3 hfe3 (by rw [hb3, hb2]; omega)
           constructor
           · intro mp' e h
-            obtain ⟨_, t2, t3, _⟩ := s1 mp' e h
+            obtain ⟨_, t2, t3, t4⟩ := s1 mp' e h
             -- the pool was full: nothing can have been removed before
             have hlen : mp.txs.length ≤ (removeAll (oracleStage mp1 t).1 rm).txs.length := by
               rw [t3, q3, p2, hco.2.2.2.2.1]; exact hi.cap
@@ -124,9 +160,17 @@ theorem add_spec {U : Tx → Prop} (hw : WF U) {mp : Pool} (hi : Inv U mp) {t : 
                 have := removeAll_length_lt hw p1 c cs hc
                 rw [hsame, htx1] at this; rw [hsame] at hlen; omega
             rw [t2, hrmnil, hsame]
-            exact ⟨hco, hi1⟩
+            refine ⟨hco, hi1, fun _ => ⟨?_, ?_⟩⟩
+            · rw [hrmnil, hsame] at t3
+              have t3' : mp1.txs.length = mp1.capacity := t3
+              rw [htx1, hco.2.2.2.2.1] at t3'
+              exact t3'
+            · rw [hrmnil, hsame] at t4
+              have t4' : ∀ x ∈ mp1.txs, ge x t := t4
+              rw [htx1] at t4'
+              exact t4'
           · intro mp' h
-            obtain ⟨r1, r2, r3, r4, r5, r6⟩ := s2 mp' h
+            obtain ⟨r1, r2, r3, r4, r5, r6, _⟩ := s2 mp' h
             refine ⟨r1, by rw [r2, q3, p2, hco.2.2.2.2.1], by rw [r3, q4, p3, hco.2.2.2.2.2.1], r4, ?_, ?_⟩
             · intro x hx
               rcases r5 x hx with h' | h'
@@ -167,8 +211,9 @@ theorem add_spec {U : Tx → Prop} (hw : WF U) {mp : Pool} (hi : Inv U mp) {t : 
           constructor
           · intro mp' e h
             have := (Prod.mk.inj h).1; subst this
+            have he : e = .oracle := (Option.some.inj (Prod.mk.inj h).2).symm
             rw [o2 hf]
-            exact ⟨hco, hi1⟩
+            exact ⟨hco, hi1, fun h' => by rw [he] at h'; cases h'⟩
           · intro mp' h; cases (Prod.mk.inj h).2
 
 end NeoModel.Mempool
